@@ -298,10 +298,12 @@ class UnionMatcher(AdditiveBiMatcher):
             # not cover every document of this block)
             if aq < bq:
                 sk = a.skip_to_quality(minquality - b.max_quality())
-                aq = a.block_quality()
+                if a.is_active():
+                    aq = a.block_quality()
             else:
                 sk = b.skip_to_quality(minquality - a.max_quality())
-                bq = b.block_quality()
+                if b.is_active():
+                    bq = b.block_quality()
             skipped += sk
             if not sk:
                 # Nothing moved (e.g. floating point rounding of the
@@ -813,10 +815,12 @@ class AndMaybeMatcher(AdditiveBiMatcher):
             # not cover every document of this block)
             if aq < bq:
                 sk = a.skip_to_quality(minquality - b.max_quality())
-                aq = a.block_quality()
+                if a.is_active():
+                    aq = a.block_quality()
             else:
                 sk = b.skip_to_quality(minquality - a.max_quality())
-                bq = b.block_quality()
+                if b.is_active():
+                    bq = b.block_quality()
             skipped += sk
             if not sk:
                 # Nothing moved (e.g. floating point rounding of the
